@@ -1,5 +1,6 @@
 import Model.Genum
 import Lemmas.Genum
+import Lemmas.GenumTraits
 import Properties.C04
 /-!
 # C05 — genum: JSON/text/YAML codecs round-trip values and reject all else
@@ -82,62 +83,54 @@ theorem roundtrip_of_parse (g : GenFull) (e : Int)
   refine ⟨hs, hs, ?_⟩
   unfold GenFull.unmarshalYAML; rw [hs]
 
-/- FULL STATEMENT (roundtrip_json / roundtrip_text / roundtrip_yaml):
-     genFull o f t = .ok g → Accepted f t.name k → Defined f t.name e →
-       g.unmarshalJSON {} (.str (g.marshal e)) = some e ∧ (text) ∧ (yaml)
-   Proved below for definitions WITHOUT parsable trait constants in the switch
-   (`roundtrip_partial`). Missing for the general case: the shape of `parseCases` (that the case
-   of value `v` starts with the constant `"v.name"`), i.e. a `mapM` inversion lemma; with it,
-   `parse_of_case` + `genFull_shape` (no duplicate constants) + `C04.string_primary` close the
-   goal. The correspondence run covers definitions with parsable traits. -/
+/-- no duplicate constant among the cases of an accepted generation -/
+theorem cases_nodup {o : Options} {g : GenFull} (h : genFull o f t = .ok g) :
+    (g.base.cases.flatMap (·.consts)).Nodup := by
+  obtain ⟨_, _, _, hdup⟩ := genFull_ok h
+  unfold hasDupCase at hdup
+  simp only [Bool.or_eq_false_iff] at hdup
+  simpa using hdup.1.1
 
-/-- round trip for every accepted definition whose `Parse` switch holds names only (no trait
-declared parsable), all three codecs, every option combination -/
-theorem roundtrip_partial (o : Options) (ha : Accepted f t.name k) (e : Int) (hd : Defined f t.name e) :
-    let g : GenFull := ⟨genType o f t.name, []⟩
+/-- `Parse<T>` of the emitted name returns the value — also when the switch holds parsable trait
+constants (no case constant occurs twice, so no trait constant can shadow a name). -/
+theorem parse_marshal (o : Options) (g : GenFull) (h : genFull o f t = .ok g)
+    (ha : Accepted f t.name k) (e : Int) (hd : Defined f t.name e) :
+    g.base.parse (Dyn.ofString (g.marshal e)) = some e := by
+  have hn := cases_nodup h
+  obtain ⟨ts, _, hg, _⟩ := genFull_ok h
+  obtain ⟨c, hc, ht, hv, hname, _⟩ := C04.string_primary o ha e hd
+  have hm : g.marshal e = c.name := by
+    rw [hname]; subst hg; rfl
+  have hcase : caseOf ts (Value.ofConst c) ∈ g.base.cases := by
+    subst hg
+    exact List.mem_map.mpr ⟨_, mem_sortedValues.mpr ⟨c, hc, ht, rfl⟩, rfl⟩
+  have := parse_of_case g.base hn _ hcase (Dyn.ofString c.name) (by simp [caseOf, Value.ofConst])
+  rw [hm, this]
+  simp [caseOf, Value.ofConst, hv]
+
+/-- `roundtrip_json`, `roundtrip_text`, `roundtrip_yaml`: for every definition `genFull` accepts
+(any traits, any parsable subset, duplicates, every option combination) and every defined value,
+decoding its encoding yields the value again, in all three codecs. -/
+theorem roundtrip (o : Options) (g : GenFull) (h : genFull o f t = .ok g)
+    (ha : Accepted f t.name k) (e : Int) (hd : Defined f t.name e) :
     g.unmarshalJSON {} (.str (g.marshal e)) = some e ∧
     g.unmarshalText (g.marshal e) = some e ∧
-    g.unmarshalYAML {} (g.marshal e) = some e := by
-  intro g
-  apply roundtrip_of_parse
-  obtain ⟨c, hc, ht, hv, hn, _⟩ := C04.string_primary o ha e hd
-  show (genType o f t.name).parse (Dyn.ofString ((genType o f t.name).string e)) = some e
-  rw [← hn]
-  have := C04.parse_name o ha c hc ht
-  unfold GenOut.parseString at this
-  rw [this, hv]
+    g.unmarshalYAML {} (g.marshal e) = some e :=
+  roundtrip_of_parse g e (parse_marshal o g h ha e hd)
+
+theorem roundtrip_json (o : Options) (g : GenFull) (h : genFull o f t = .ok g)
+    (ha : Accepted f t.name k) (e : Int) (hd : Defined f t.name e) :
+    g.unmarshalJSON {} (.str (g.marshal e)) = some e := (roundtrip o g h ha e hd).1
+
+theorem roundtrip_text (o : Options) (g : GenFull) (h : genFull o f t = .ok g)
+    (ha : Accepted f t.name k) (e : Int) (hd : Defined f t.name e) :
+    g.unmarshalText (g.marshal e) = some e := (roundtrip o g h ha e hd).2.1
+
+theorem roundtrip_yaml (o : Options) (g : GenFull) (h : genFull o f t = .ok g)
+    (ha : Accepted f t.name k) (e : Int) (hd : Defined f t.name e) :
+    g.unmarshalYAML {} (g.marshal e) = some e := (roundtrip o g h ha e hd).2.2
 
 /-! ## rejection -/
-
-private theorem firstSome_none {α : Type} (l : List (Option α)) (h : ∀ x ∈ l, x = none) : firstSome l = none := by
-  induction l with
-  | nil => rfl
-  | cons x xs ih =>
-    have hx := h x (by simp)
-    subst hx
-    exact ih (fun y hy => h y (List.mem_cons_of_mem _ hy))
-
-private theorem stringTry_none (g : GenFull) (s : String) (h : ∀ ty, g.base.parse ⟨ty, .str s⟩ = none) :
-    stringTry g s = none := by
-  unfold stringTry
-  rw [show Dyn.ofString s = ⟨"string", .str s⟩ from rfl, h "string"]
-  apply firstSome_none
-  intro x hx
-  obtain ⟨t, _, rfl⟩ := List.mem_map.mp hx
-  exact h t.ty
-
-private theorem numericTry_none (g : GenFull) (signed : Bool) (x : Int) (h : ∀ ty, g.base.parse ⟨ty, .int x⟩ = none) :
-    numericTry {} g signed x = none := by
-  unfold numericTry
-  apply firstSome_none
-  intro y hy
-  obtain ⟨t, _, rfl⟩ := List.mem_map.mp hy
-  simp only []
-  generalize wrapTo signed _ x = w
-  by_cases hc : w = x
-  · subst hc; simp [h t.ty]
-  · have : (({} : Quirks).noRangeGuard || w == x) = false := by simp [hc]
-    rw [this]; rfl
 
 /-- JSON: a scalar document is rejected unless its own content — the string, resp. the integer,
 read at some type — is a constant of the `Parse` switch (a name, a name up to case under
